@@ -112,12 +112,22 @@ def gen_structure(tps, wmean, npipes, nops, ratio, probs, c0=0, c1=0, c2=0, zc0=
     last_event = None
     expected_gap = None
     vals = [Priority.INTERACTIVE.value, Priority.QUERY.value, Priority.BATCH_PIPELINE.value]
+    node_ids = []
     for t in range(K):
         pos = dict(rng.pos)
         pi = rng.pi
         ps = g.run_one_tick()
         if rng.invalid:
             return ""
+        # another generator with the same parameters is built between the events (sensitivity sampling, comparison runs):
+        # that must not disturb this one - in particular the identifiers it hands out stay fresh
+        WorkloadGenerator(**_params(tps, wmean, npipes, nops, ratio, probs))
+        for p in ps:
+            for nid in [getattr(p, "id", None)] + [o.id for o in p.values]:
+                if nid is not None:
+                    if nid in node_ids:
+                        return "C15:identifier_reused_across_events"
+                    node_ids.append(nid)
         if rng.seen_p is not None:
             # priorities follow the configured probabilities: the class distribution used is the configured one (normalised)
             tot = probs[0] + probs[1] + probs[2]
